@@ -4,10 +4,12 @@ import (
 	"crypto/sha256"
 	"encoding/binary"
 	"encoding/hex"
+	"encoding/json"
 	"fmt"
 	"math/big"
 	"runtime"
 	"sync"
+	"time"
 
 	"github.com/crate-crypto/go-ipa/bandersnatch"
 	"github.com/crate-crypto/go-ipa/bandersnatch/fp"
@@ -286,4 +288,15 @@ func guard(r *core.Result, check, api, input string, f func()) (ok bool) {
 	}()
 	f()
 	return true
+}
+
+func jsonUnmarshal(b []byte, v interface{}) error { return json.Unmarshal(b, v) }
+
+// schedDeadline: per-scenario wall-clock cap of a scheduled exploration (a cap ends the search with
+// exhaustive:false for that unit, never with a violation).
+func schedDeadline(ctx *core.Ctx) time.Duration {
+	if ctx.Thorough() {
+		return 10 * time.Minute
+	}
+	return 25 * time.Second
 }
